@@ -343,6 +343,31 @@ def chunk_accessors(strand, chunk_strand=PLUS):
             ok = ok and sorted(q for a, b in bl(got) for q in range(a, b)) == sorted(walk[1:])
             back = t.chunk_relative_interval_to_transcript(cex[0][0], cex[-1][1], rel_strand)
             ok = ok and sorted(q for a, b in bl(back) for q in range(a, b)) == list(range(len(walk)))
+        # the CDS-level and feature-level wrappers of the same conversions, along the visible part of the CDS / of a feature with the same blocks
+        if ccds:
+            corder = ccds if rel_strand is PLUS else list(reversed(ccds))
+            cwalk = [q for a, b in corder for q in (range(a, b) if rel_strand is PLUS else range(b - 1, a - 1, -1))]
+            for i, q in enumerate(cwalk):
+                ok = ok and t.cds_pos_to_chunk_relative(i) == q and t.chunk_relative_pos_to_cds(q) == i and t.cds.cds_pos_to_chunk_relative(i) == q
+            got = t.cds_interval_to_chunk_relative(0, len(cwalk), PLUS)
+            ok = ok and sorted(q for a, b in bl(got) for q in range(a, b)) == sorted(cwalk)
+            back = t.chunk_relative_interval_to_cds(ccds[0][0], ccds[-1][1], rel_strand)
+            ok = ok and sorted(q for a, b in bl(back) for q in range(a, b)) == list(range(len(cwalk)))
+            for q in walk:
+                if q not in cwalk:
+                    try:
+                        t.chunk_relative_pos_to_cds(q)
+                        ok = False
+                    except InvalidPositionException:
+                        pass
+        f = FeatureInterval([e[0] for e in ex], [e[1] for e in ex], strand, guid=49,
+                            parent_or_seq_chunk_parent=chunk_parent(w, Lc, seq=genome[w:w + Lc], strand=chunk_strand))
+        for i, q in enumerate(walk):
+            ok = ok and f.feature_pos_to_chunk_relative(i) == q and f.chunk_relative_pos_to_feature(q) == i
+        if len(walk) >= 2:
+            ok = ok and sorted(q for a, b in bl(f.feature_interval_to_chunk_relative(0, len(walk) - 1, PLUS)) for q in range(a, b)) == sorted(walk[:-1])
+            ok = ok and sorted(q for a, b in bl(f.chunk_relative_interval_to_feature(cex[0][0], cex[-1][1], rel_strand)) for q in range(a, b)) == list(range(len(walk)))
+        ok = ok and [(b.start, b.end) for b in f.chunk_relative_blocks] == cex
         # the alternative constructor rebuilds the visible part from its chunk-relative locations
         if chunk_strand is PLUS and not any(a[1] == b[0] for a, b in zip(cex, cex[1:])):
             t2 = TranscriptInterval.from_chunk_relative_location(t.chunk_relative_location, cds=t.cds if ccds else None, guid=48)
